@@ -77,8 +77,8 @@ Lemma df_branch_stream_spec st ns : wf st ->
 Proof.
   intros W. unfold df_branch_stream, width_ok, names_ok. simpl.
   destruct (input_cols st) as [cs|] eqn:EC.
-  - rewrite (W cs eq_refl). destruct (names_eqb ns cs) eqn:E; simpl.
-    + apply names_eqb_eq in E. subst. rewrite EC, (W cs eq_refl). auto.
+  - rewrite (W cs EC). destruct (names_eqb ns cs) eqn:E; simpl.
+    + apply names_eqb_eq in E. subst. auto.
     + apply names_eqb_neq in E. intros [_ H]. contradiction.
   - destruct (input_col_dim st) as [d|]; simpl.
     + destruct (zlen ns =? d) eqn:E; simpl.
@@ -165,7 +165,7 @@ Proof.
   intros W. unfold df_branch_batch, names_ok. simpl.
   destruct (input_cols st) as [cs|] eqn:EC.
   - destruct (names_eqb ns cs) eqn:E; simpl.
-    + apply names_eqb_eq in E. subst. rewrite EC, (W cs eq_refl). auto.
+    + apply names_eqb_eq in E. subst. rewrite (W cs EC). auto.
     + apply names_eqb_neq in E. exact E.
   - auto.
 Qed.
@@ -194,7 +194,7 @@ Proof.
       * apply Z.leb_gt in E. repeat split; auto.
         unfold width_ok, names_ok in *. simpl in *.
         destruct (input_cols st) as [cs|] eqn:EC.
-        -- left. rewrite (W cs eq_refl). subst. reflexivity.
+        -- left. rewrite (W cs EC). subst. reflexivity.
         -- right. auto.
     + split; [reflexivity|]. intros (_ & H1 & _). contradiction.
   - pose proof (arr_branch_spec st c) as H. simpl.
@@ -554,7 +554,7 @@ Section History.
         destruct (input_cols (final V v_init h)) as [cs|]; [|exact I].
         destruct IC as [_ IC]. apply Exists_exists in IC. destruct IC as (y & Hy1 & Hy2).
         rewrite Forall_forall in Hn. specialize (Hn y Hy1).
-        destruct y; simpl in *; try discriminate. inversion Hy2; subst. symmetry. exact Hn.
+        destruct y as [ys ry| | | |]; simpl in *; try discriminate. inversion Hy2. congruence.
   Qed.
 
   (** the attributes as a function of the history (independent of the width rule) *)
@@ -767,9 +767,8 @@ Section MachineProofs.
       destruct (upd a c) as [a' oka] eqn:Ea. destruct (upd b c) as [b' okb] eqn:Eb. simpl in *.
       subst okb. destruct (IH a' b' E2) as (T1 & T2 & T3 & T4).
       destruct oka.
-      + rewrite (E3 eq_refl). repeat split; try reflexivity.
-        rewrite (E3 eq_refl) in T4. apply sim_refl.
-      + rewrite T1, T2, T3. repeat split; try reflexivity. exact T4.
+      + rewrite (E3 eq_refl). repeat split; reflexivity.
+      + rewrite T1, T2, T3. repeat split; try reflexivity; destruct T4; assumption.
   Qed.
 
   (** rejected calls are invisible: the outputs after the accepted calls are those of the history
@@ -927,8 +926,10 @@ Section DfSim.
     destruct (V a x) as [s1 a'|a']; destruct (V b y) as [s2 b'|b'].
     - destruct Sa as ((A1 & A2 & A3 & A4) & -> & A6 & A7).
       destruct Sb as ((B1 & B2 & B3 & B4) & -> & B6 & B7).
-      split; [exact E|]. split; [eapply wf_new; eauto|]. split; [eapply wf_new; eauto|].
-      split; [rewrite A6, B6, E; reflexivity|]. split; eapply cols_new; eauto.
+      split; [exact E|]. split; [exact (wf_new a x a' Wa A3 A4 A6 A7)|].
+      split; [exact (wf_new b y b' Wb B3 B4 B6 B7)|].
+      split; [rewrite A6, B6, E; reflexivity|].
+      split; [exact (cols_new a x a' Nx Ca A7)|exact (cols_new b y b' Ny Cb B7)].
     - destruct Sa as ((A1 & A2 & A3 & A4) & _). destruct Sb as (_ & B).
       apply B. rewrite <- E. repeat split; auto.
       + apply (extra_shape x y E). exact A2.
@@ -1036,3 +1037,123 @@ Lemma validate_input_both_refuted :
   validate_input validate_X_stream validate_y_stream v_init (Some (In1D 2)) (Some (In1D 2)) None
   = (false, mkV None (Some 2)).
 Proof. reflexivity. Qed.
+
+(** ------------------------------------------------------------------ [wf] is an invariant *)
+Lemma wf_new_state st x (co : input -> Z * Z) s : wf st ->
+  (forall ns r, snd (co (InDF ns r)) = zlen ns) ->
+  (is_df x = false -> width_ok st (snd (co x))) ->
+  input_col_dim s = Some (snd (co x)) ->
+  input_cols s = match x with InDF ns _ => Some ns | _ => input_cols st end -> wf s.
+Proof.
+  intros W Hco Hw H1 H2 cs Hc. rewrite H1. rewrite H2 in Hc.
+  destruct x as [ms r| | | |]; simpl in *;
+    try (inversion Hc; subst; rewrite Hco; reflexivity);
+    specialize (Hw eq_refl); unfold width_ok in Hw; rewrite (W cs Hc) in Hw; rewrite Hw; reflexivity.
+Qed.
+
+Lemma wf_preserved_stream st x : wf st -> wf (state_of (validate_X_stream st x)).
+Proof.
+  intros W. pose proof (stream_spec st x W) as H.
+  destruct (validate_X_stream st x) as [shp s|s]; simpl.
+  - destruct H as (_ & H2 & _ & _ & H5 & H6).
+    exact (wf_new_state st x coerce_stream s W coerce_df_width_stream (fun _ => H2) H5 H6).
+  - destruct H as (-> & _). exact W.
+Qed.
+
+Lemma wf_preserved_uni st x : wf st -> wf (state_of (validate_univariate st x)).
+Proof.
+  intros W. pose proof (uni_spec st x W) as H.
+  destruct (validate_univariate st x) as [shp s|s]; simpl.
+  - destruct H as (_ & _ & H2 & _ & _ & H5 & H6).
+    exact (wf_new_state st x coerce_stream s W coerce_df_width_stream (fun _ => H2) H5 H6).
+  - destruct H as (-> & _). exact W.
+Qed.
+
+Lemma wf_preserved_batch st x : wf st -> wf (state_of (validate_X_batch st x)).
+Proof.
+  intros W. pose proof (batch_spec st x W) as H.
+  destruct (validate_X_batch st x) as [shp s|s]; simpl.
+  - destruct H as (_ & _ & H2 & _ & H5 & H6).
+    apply (wf_new_state st x coerce_batch s W coerce_df_width_batch); auto.
+    intros ND. destruct H2 as [H2|[H2 _]]; [exact H2|congruence].
+  - destruct H as (-> & _). exact W.
+Qed.
+
+Lemma wf_preserved_cdbd st x : wf st -> wf (state_of (validate_cdbd st x)).
+Proof.
+  intros W. unfold validate_cdbd. destruct (cdbd_guard x); [exact W|apply wf_preserved_batch; exact W].
+Qed.
+
+Lemma wf_final V : (forall st x, wf st -> wf (state_of (V st x))) ->
+  forall h st, wf st -> wf (final V st h).
+Proof.
+  intros HV h. induction h as [|x t IH]; intros st W; simpl; [exact W|].
+  apply IH. apply HV. exact W.
+Qed.
+
+(** ------------------------------------------------------------------ a concrete machine, to show
+    that the hypothesis of the machine theorems (the reset prologue is idempotent) is satisfiable:
+    the counters and drift_state of detector.py; the payload says whether this update alarms *)
+Record toy := mkToy { t_total : Z; t_since : Z; t_ds : dstate }.
+Definition toy_pre (d : toy) : toy :=
+  if is_drift (t_ds d) then mkToy (t_total d) 0 DNone else d.
+Definition toy_body (d : toy) (shp : Z * Z) (alarm : bool) : toy :=
+  mkToy (t_total d + 1) (t_since d + 1) (if alarm then DDrift else DNone).
+
+Lemma toy_pre_idem d : toy_pre (toy_pre d) = toy_pre d.
+Proof. unfold toy_pre. destruct d as [t s []]; reflexivity. Qed.
+
+(** ------------------------------------------------------------------ the four usages at once *)
+Lemma user_reject_no_change k st x s : user_validator k st x = Reject s -> s = st.
+Proof.
+  destruct k; simpl.
+  - apply stream_reject_no_change.
+  - apply uni_reject_no_change.
+  - apply batch_reject_no_change.
+  - apply batch_reject_no_change.
+Qed.
+
+Lemma user_wf_preserved k st x : wf st -> wf (state_of (user_validator k st x)).
+Proof.
+  destruct k; simpl.
+  - apply wf_preserved_stream.
+  - apply wf_preserved_uni.
+  - apply wf_preserved_batch.
+  - apply wf_preserved_batch.
+Qed.
+
+Lemma nondf_indistinguishable k x y : is_df x = false -> is_df y = false ->
+  user_coerce k x = user_coerce k y ->
+  indistinguishable (user_early k) (user_validator k) x y.
+Proof.
+  intros Hx Hy E. split.
+  - destruct k; simpl; try reflexivity. unfold user_coerce in E. simpl in E.
+    destruct (cdbd_guard x) eqn:Gx; destruct (cdbd_guard y) eqn:Gy; try reflexivity.
+    + apply cdbd_guard_width in Gy. rewrite <- E in Gy. apply cdbd_guard_width in Gy. congruence.
+    + apply cdbd_guard_width in Gx. rewrite E in Gx. apply cdbd_guard_width in Gx. congruence.
+  - intros st. destruct k; unfold user_coerce in E; simpl in *.
+    + apply nondf_equiv_stream; assumption.
+    + apply nondf_equiv_uni; assumption.
+    + apply nondf_equiv_batch; assumption.
+    + apply nondf_equiv_batch; assumption.
+Qed.
+
+Lemma Forall2_weaken {A B} (R S : A -> B -> Prop) : (forall a b, R a b -> S a b) ->
+  forall l1 l2, Forall2 R l1 l2 -> Forall2 S l1 l2.
+Proof. intros H l1 l2 F. induction F; constructor; auto. Qed.
+
+Theorem container_irrelevant_history k (D P : Type) (pre : D -> D) (body : D -> Z * Z -> P -> D) h1 h2 m :
+  Forall2 (fun c1 c2 => snd c1 = snd c2 /\
+                        (fst c1 = fst c2 \/
+                         (is_df (fst c1) = false /\ is_df (fst c2) = false /\
+                          user_coerce k (fst c1) = user_coerce k (fst c2)))) h1 h2 ->
+  m_trace (user_early k) pre (user_validator k) body m h1 = m_trace (user_early k) pre (user_validator k) body m h2 /\
+  m_verdicts (user_early k) pre (user_validator k) body m h1 = m_verdicts (user_early k) pre (user_validator k) body m h2 /\
+  m_final (user_early k) pre (user_validator k) body m h1 = m_final (user_early k) pre (user_validator k) body m h2.
+Proof.
+  intros F.
+  apply (container_irrelevant_machine D P (user_early k) pre (user_validator k) body h1 h2 m).
+  eapply Forall2_weaken; [|exact F]. intros a b (Hp & [E|(A & B & C)]); split; try exact Hp.
+  - rewrite E. split; reflexivity.
+  - exact (nondf_indistinguishable k (fst a) (fst b) A B C).
+Qed.
